@@ -1471,8 +1471,8 @@ def run(ctx):
         'or the listed in-place functions/methods; which may return views), callee resolution by name, numpydoc types of '
         'public-method parameters (int/float = immutable scalar), x[()] only on 0-d arrays, the WAIVERS table '
         '(5 hand-reviewed statements in the optimizers, matched by exact text)',
-        'calls from one registered method to another registered method are assumed not to write their arguments '
-        '(the theorem itself, one call level down)',
+        'calls from one registered method to another are translated as writing none of their arguments: checked, not assumed '
+        '(C13_registered_calls_write_nothing: every registered body is verified with all of its parameters caller-owned)',
         'the decorator closures (_register.inner, _class_wrapper.inner) and _return_results are analysed statically like every '
         'other body (C13_wrappers_checked); the hand alias model C13/Model.v is an exact refinement validated with np.shares_memory; '
         'numba kernels are analysed from their Python source',
